@@ -12,10 +12,13 @@
 #define POOL 24
 static lp_algebraic_number_t pool[POOL]; static int npool;
 
-static const long blocks[][5] = {
+static const long blocks[][6] = {
   /* deg, c0.. */
   {2, -2, 0, 1}, {2, -3, 0, 1}, {2, -1, -1, 1}, {2, -1, 0, 2}, {2, -5, 0, 1}, {2, -2, -2, 1}, {2, -1, -4, 4}, {2, -8, 0, 1}, {2, -2, 0, 9},
   {3, -2, 0, 0, 1}, {3, 1, -3, 0, 1}, {3, -1, -1, 0, 1}, {2, -6, 0, 1}, {2, 1, -3, 1}, {2, -7, 2, 1},
+  /* reducible (non-minimal defining polynomials, kept whole by root isolation): (x^2-2)(x-3), (x^2-2)(2x-1), (x^2-3)(x+1),
+     (x^2-2)(x^2-3), (x^2-2)(x-1)(x-2), (x^2-x-1)(x-2) */
+  {3, 6, -2, -3, 1}, {3, 2, -4, -1, 2}, {3, -3, -3, 1, 1}, {4, 6, 0, -5, 0, 1}, {4, -4, 6, 0, -3, 1}, {3, 2, 1, -3, 1},
 };
 #define NBLOCKS (sizeof blocks / sizeof blocks[0])
 
@@ -110,8 +113,12 @@ static void one_op(void) {
     if (chance(60)) { lp_algebraic_number_t c; lp_algebraic_number_construct_copy(&c, a); for (unsigned t = rnd(12); t > 0 && c.f; --t) lp_algebraic_number_refine(&c);
       lp_algebraic_number_get_rational_midpoint(&c, &q); lp_algebraic_number_destruct(&c); }
     else { lp_rational_destruct(&q); lp_rational_construct_from_int(&q, rnd_in(-6, 6), 1 + rnd(5)); }
+    /* the value of another pool member: for non-minimal defining polynomials these are the OTHER roots of a's polynomial */
+    int exactz = 0;
+    if (chance(35) && lp_algebraic_number_is_rational(b)) { lp_algebraic_number_to_rational(b, &q); exactz = lp_algebraic_number_is_integer(b); }
+    if (exactz) k = chance(60) ? 0 : 2;
     if (k == 0) {
-      lp_integer_t z; lp_integer_construct(&z); lp_rational_floor(&q, &z); if (chance(50)) lp_integer_inc(lp_Z, &z);
+      lp_integer_t z; lp_integer_construct(&z); lp_rational_floor(&q, &z); if (!exactz && chance(50)) lp_integer_inc(lp_Z, &z);
       sb_begin("alg", "cmpz"); sb_sp(); sb_alg(a); sb_sp(); sb_mpz(&z); sb_arrow();
       int c = lp_algebraic_number_cmp_integer(a, &z); sb_sp(); sb_long(c); sb_emit();
       lp_integer_destruct(&z);
